@@ -52,3 +52,10 @@ package reader
 //@   ensures not_nested: !has(old(r.objStmCache), objStmNum) && has(old(r.xrefTable.Entries), objStmNum) && old(r.xrefTable.Entries)[objStmNum].Type == core.XRefEntryCompressed ==> err
 //@   ensures unknown_stream_is_error: !has(old(r.objStmCache), objStmNum) && !has(old(r.xrefTable.Entries), objStmNum) ==> err
 //@   ensures well_formed: !err ==> objStm.first >= 0 && objStm.n >= 0
+
+// ---- C10: Close releases the file handle the reader holds ----
+//@ func (*Reader) Close results (err)
+//@   property C10
+//@   count closed: Close() when true
+//@   ensures handle_released: !isnil(r.file) ==> closed == 1
+//@   ensures nothing_to_close: isnil(r.file) ==> closed == 0 && !err
